@@ -63,7 +63,7 @@ def pose_params(draw, snap=True):
     sh = draw(st.sampled_from([0.0, 1.0, 100.0, 1e4]))
     # quantised (no denormal-size coordinates: forsys runs numpy with underflow errors raised)
     q["shift"] = [sh * draw(st.integers(-1000, 1000)) / 1000.0, sh * draw(st.integers(-1000, 1000)) / 1000.0]
-    rm = draw(st.sampled_from(["uniform", "snap", "zero"] if snap else ["uniform", "zero"]))
+    rm = draw(st.sampled_from(["uniform", "snap", "snapchord", "zero"] if snap else ["uniform", "zero"]))
     q["rot_mode"] = rm
     if rm == "uniform":
         q["angle"] = draw(st.integers(0, 2 ** 20 - 1)) * (2 * math.pi / 2 ** 20)
@@ -71,6 +71,10 @@ def pose_params(draw, snap=True):
         q["snap_end"] = draw(st.integers(0, 10 ** 6))
         q["snap_k"] = draw(st.integers(0, 3))
         q["snap_delta"] = draw(st.sampled_from(SNAP_DELTAS))
+    elif rm == "snapchord":
+        # the first polyline segment at a chosen interface end is made exactly axis-parallel (as pixel data is)
+        q["snap_end"] = draw(st.integers(0, 10 ** 6))
+        q["snap_k"] = draw(st.integers(0, 3))
     return q
 
 
@@ -182,7 +186,7 @@ def ridge_ends(t):
     return out
 
 
-def pose_angle(t1, q):
+def pose_angle(t1, q, nint=None):
     """Rotation angle for the (already reflected / scaled) tissue t1."""
     rm = q.get("rot_mode", "zero")
     if rm == "zero":
@@ -191,8 +195,32 @@ def pose_angle(t1, q):
         return q["angle"]
     ends = ridge_ends(t1)
     ri, j = ends[q["snap_end"] % len(ends)]
+    if rm == "snapchord":
+        ch = t1.chord_dir(ri, j, (nint or {}).get(ri, 1) if t1.ridges[ri].c is not None else (nint or {}).get(ri, 0))
+        return q["snap_k"] * math.pi / 2 - cmath.phase(ch)
     tg = t1.tangent(ri, j)
     return q["snap_k"] * math.pi / 2 + q["snap_delta"] - cmath.phase(tg)
+
+
+def snap_chord_exact(t, R, q):
+    """For rot_mode 'snapchord': make the chosen first segment exactly axis-parallel in the realised mesh (moves one
+    sample point by rounding error only). Returns the (ridge, junction) concerned or None."""
+    if not q or q.get("rot_mode") != "snapchord":
+        return None
+    ends = ridge_ends(t)
+    ri, j = ends[q["snap_end"] % len(ends)]
+    r = t.ridges[ri]
+    n = R.n_int[ri]
+    chain = [("J", r.a)] + [("I", ri, k) for k in range(n)] + [("J", r.b)]
+    a, b = (chain[0], chain[1]) if j == r.a else (chain[-1], chain[-2])
+    if a not in R.vid_of_tok or b not in R.vid_of_tok or b[0] == "J":
+        return None          # do not move junctions
+    va, vb = R.vertices[R.vid_of_tok[a]], R.vertices[R.vid_of_tok[b]]
+    if q["snap_k"] % 2 == 0:
+        vb.y = va.y
+    else:
+        vb.x = va.x
+    return ri, j
 
 
 def apply_pose(t, q, nint=None, avoid_d1=False, stats=None, ends=None):
@@ -203,7 +231,7 @@ def apply_pose(t, q, nint=None, avoid_d1=False, stats=None, ends=None):
         q = {"rot_mode": "zero", "shift": [0.0, 0.0]}
     s = 10.0 ** q.get("logscale", 0.0)
     t1 = t.similarity(scale=s, reflect=bool(q.get("reflect")))
-    angle = pose_angle(t1, q)
+    angle = pose_angle(t1, q, nint)
     if avoid_d1:
         bad = [e for e in straddle_list(t1.similarity(angle=angle), nint, 1e-9)
                if ends is None or (e[0], e[1]) in ends]
